@@ -86,7 +86,7 @@ class C02:
         return _strategy()
 
     def examples(self, tier):
-        return 600 if tier == "quick" else 30000
+        return 600 if tier == "quick" else 90000
 
     def enumerate(self, tier):
         return []
